@@ -3,11 +3,12 @@
 usage: seed_matrix.py [tier] [seed ids…]    (default: quick, all). Applies each patch to /repo, runs, restores /repo."""
 import os,sys,subprocess,json,time
 root=os.path.dirname(os.path.dirname(os.path.abspath(__file__)))
+REPO=os.environ.get('VERIF_REPO','/repo')   # a scratch worktree when run in a background snapshot (the checks honour VERIF_REPO too)
 tier=sys.argv[1] if len(sys.argv)>1 else 'quick'
 ids=sys.argv[2:] or sorted(d for d in os.listdir(root+'/seeded') if os.path.isdir(root+'/seeded/'+d))
-EXTRA={'C01-3':['C16'],'C04-3':['C06'],'C05-3':['C06'],'C03-2':['C06'],'C14-2':['C06'],'C15-1':['C02'],'C07-3':['C05'],'C02-2':['C05'],'C16-1':['C01'],'C05-2':['C07'],'C03-r3-2':['C06'],'C03-r3-3':['C04'],'C07-r3-3':['C03','C14'],'C04-r3-1':['C05'],'C13-r3-2':['C04','C06'],'C11-r3-3':['C12']}
+EXTRA={'C01-3':['C16'],'C04-3':['C06'],'C05-3':['C06'],'C03-2':['C06'],'C14-2':['C06'],'C15-1':['C02'],'C07-3':['C05'],'C02-2':['C05'],'C16-1':['C01'],'C05-2':['C07'],'C03-r3-2':['C06'],'C03-r3-3':['C04'],'C07-r3-3':['C03','C14'],'C04-r3-1':['C05'],'C13-r3-2':['C04','C06'],'C11-r3-3':['C12'],'C06-r5-2':['C04'],'C03-r5-1':['C05'],'C02-r5-3':['C03','C14'],'C03-r5-2':['C02'],'C14-r5-2':['C02'],'C04-r5-3':['C05','C07'],'C05-r5-1':['C04'],'C07-r5-3':['C05'],'C01-r5-1':['C16'],'C04-r5-1':['C16'],'C16-r5-1':['C01','C04'],'C12-r5-2':['C05','C03'],'C05-r5-2':['C03'],'C07-r5-2':['C05','C03'],'C15-r5-1':['C02'],'C02-r5-1':['C15'],'C14-r5-1':['C15'],'C15-r5-2':['C14'],'C10-r5-1':['C04'],'C13-r5-1':['C04'],'C09-r5-1':['C04'],'C13-r5-3':['C08'],'C08-r5-2':['C13']}
 def clean():
-    st=subprocess.run('git -C /repo status --porcelain --untracked-files=no',shell=True,capture_output=True,text=True).stdout.strip()
+    st=subprocess.run('git -C '+REPO+' status --porcelain --untracked-files=no',shell=True,capture_output=True,text=True).stdout.strip()
     return st==''
 assert clean(),'/repo not clean'
 for sid in ids:
@@ -15,7 +16,7 @@ for sid in ids:
     meta=json.load(open(d+'/meta.json'))
     prop=meta['breaks_property']
     checks=[prop]+EXTRA.get(sid,[])
-    r=subprocess.run('git -C /repo apply %s/patch.diff'%d,shell=True)
+    r=subprocess.run('git -C '+REPO+' apply %s/patch.diff'%d,shell=True)
     if r.returncode!=0:
         print(sid,'cannot apply'); continue
     try:
@@ -28,6 +29,6 @@ for sid in ids:
             meta.setdefault('detected_by',{})[ck]=res
             print(sid,ck,'CAUGHT' if p.returncode==1 and nv>0 else 'MISSED(exit=%d)'%p.returncode,kinds,res['wall_s'],flush=True)
     finally:
-        subprocess.run('git -C /repo checkout -- .',shell=True)
+        subprocess.run('git -C '+REPO+' checkout -- .',shell=True)
     json.dump(meta,open(d+'/meta.json','w'),indent=1)
 assert clean()
